@@ -3,7 +3,7 @@
  "name": "fe_sync_blockdev",
  "props": ["C04"],
  "level": "U",
- "tier": "wip",
+ "tier": "quick",
  "harness": "h_sync",
  "includes": ["e2fsck"],
  "functions": ["e2fsck/journal.c:sync_blockdev"],
@@ -16,7 +16,7 @@
  "name": "fe_ll_rw_block",
  "props": ["C04"],
  "level": "U/k",
- "tier": "wip",
+ "tier": "quick",
  "harness": "h_llrw",
  "includes": ["e2fsck"],
  "unwind": 2,
@@ -31,7 +31,7 @@
  "name": "fe_brelse",
  "props": ["C04"],
  "level": "U/k",
- "tier": "wip",
+ "tier": "quick",
  "harness": "h_brelse",
  "includes": ["e2fsck"],
  "unwind": 2,
@@ -46,7 +46,7 @@
  "name": "fe_recover_ext3_journal_ok",
  "props": ["C04"],
  "level": "P",
- "tier": "wip",
+ "tier": "quick",
  "harness": "h_recover_order",
  "replace": ["e2fsck_get_journal", "e2fsck_journal_load"],
  "includes": ["e2fsck"],
@@ -56,7 +56,7 @@
  "functions": ["e2fsck/journal.c:recover_ext3_journal", "e2fsck/journal.c:e2fsck_journal_release", "e2fsck/journal.c:brelse", "e2fsck/journal.c:ll_rw_block"],
  "assumes": ["e2fsck_get_journal replaced by a contract (error, or the journal object prepared by the harness: superblock buffer on the journal channel, two kdevs); e2fsck_journal_load replaced by a contract (arbitrary result, arbitrary superblock contents and sequence fields)",
 	     "jbd2_journal_recover is a stub obeying the contract proved in unit jbd2_journal_recover: result 0 => no unflushed filesystem write left (P6); a non-zero result leaves an arbitrary number of them",
-	     "revoke-table set-up/tear-down, fix_problem, the io manager are stubs; the write stub is the monitor",
+	     "revoke-table set-up/tear-down, fix_problem, the io manager are stubs; the write stub is the monitor", "E2F_OPT_READONLY is clear (e2fsck_run_ext3_journal returns EXT2_ET_FILE_RO before calling recover_ext3_journal otherwise: unit readonly/run_ext3_journal_ro); jbd2_journal_recover never returns INT_MIN (it returns 0 or a negated errno / com_err code)",
 	     "this unit states the success path only: when jbd2_journal_recover returned 0 the journal superblock is written exactly once, with s_start == 0 and s_sequence == the id the recovery restarted the log at, while no replayed block is unflushed; the error path is unit fe_recover_ext3_journal_strict (FINDING release_after_failed_recover)"],
  "native": false
 }
@@ -66,7 +66,7 @@
  "name": "fe_recover_ext3_journal_strict",
  "props": ["C04"],
  "level": "P",
- "tier": "wip",
+ "tier": "quick",
  "harness": "h_recover_order",
  "replace": ["e2fsck_get_journal", "e2fsck_journal_load"],
  "includes": ["e2fsck"],
@@ -74,6 +74,21 @@
  "unwind_reason": "brelse calls ll_rw_block with nr == 1",
  "functions": ["e2fsck/journal.c:recover_ext3_journal", "e2fsck/journal.c:e2fsck_journal_release"],
  "assumes": ["same as fe_recover_ext3_journal_ok, but the monitor in the write stub is active on every path: expected failing obligation (FINDING release_after_failed_recover, findings/C04_release_after_failed_recover)"],
+ "native": false
+}
+*/
+/* VERIF-UNIT
+{
+ "name": "fe_run_ext3_journal",
+ "props": ["C04"],
+ "level": "P",
+ "tier": "quick",
+ "harness": "h_run",
+ "replace": ["recover_ext3_journal", "e2fsck_check_ext3_journal"],
+ "includes": ["e2fsck"],
+ "functions": ["e2fsck/journal.c:e2fsck_run_ext3_journal", "e2fsck/journal.c:e2fsck_clear_recover"],
+ "assumes": ["recover_ext3_journal and e2fsck_check_ext3_journal replaced by contracts (arbitrary results; recover's PRECONDITION is the protocol: the filesystem still requests recovery and has not been re-opened yet); ext2fs_flush / ext2fs_mmp_stop / ext2fs_free / ext2fs_open are stubs (open hands out a second, harness-built ext2_filsys with an arbitrary superblock, or fails: then fatal_error ends the run); the manager has no get_stats method",
+	     "E2F_OPT_READONLY clear (otherwise the function returns EXT2_ET_FILE_RO at once: unit readonly/run_ext3_journal_ro)"],
  "native": false
 }
 */
@@ -85,6 +100,9 @@
  * e2fsck_journal_release(ctx, journal, reset = 1, drop = 0), which sets s_start = 0 and writes the journal superblock.
  * The journal is thus marked empty although replayed blocks are not known durable (or were not replayed at all);
  * e2fsck_run_ext3_journal then also clears needs_recovery.  A second run cannot replay any more.
+ * Confirmed natively: findings/C04_release_after_failed_recover/demo.sh (LD_PRELOAD device model, the flush of
+ * jbd2_journal_recover fails once); proposed-fix.patch there releases with (reset = !retval, drop = !!retval).
+ * Same code in debugfs/journal.c (recover_ext3_journal and the errout of ext2fs_open_journal): units fed_*.
  */
 #include "c04_env.h"
 #include "e2fsck/journal.c"
@@ -259,25 +277,108 @@ void h_recover_order(void)
 	PJ->j_superblock = (journal_superblock_t *)PBH->b_data;
 	g_jsb_data = PBH->b_data;
 	g_unflushed_fs = 0;
+	io_channel jio = CTX.journal_io;
+	/* call sites: e2fsck_run_ext3_journal returns EXT2_ET_FILE_RO before getting here when E2F_OPT_READONLY is set
+	 * (unit readonly/run_ext3_journal_ro); jbd2_journal_recover returns 0 or the negative of an errno / com_err code */
+	ASSUME(!(IN.options & E2F_OPT_READONLY));
+	ASSUME(IN.recover_ret > -0x7fffffff - 1);
 
 	errcode_t r = recover_ext3_journal(&CTX);
 
 	int released = (IN.rc_cache1 == 0 && IN.rc_cache2 == 0 && IN.rc_get == 0);
 	int recovered = released && IN.rc_load == 0 && IN.rc_revoke == 0;
 	CHECK(g_recover_calls == (recovered ? 1 : 0), "the journal is replayed iff it could be opened, loaded and the revoke table set up");
-	if (recovered && IN.recover_ret == 0 && !(IN.options & E2F_OPT_READONLY)) {
+	if (recovered && IN.recover_ret == 0) {
 		CHECK(r == 0, "success is reported");
 		CHECK(g_jsb_writes == 1 && g_jsb_empty_writes == 1, "after a successful replay the journal superblock is written once, marked empty");
 		CHECK(g_empty_while_unflushed == 0, "C04: ... and at that moment no replayed block is unflushed");
-		CHECK(g_jsb_ch == (void *)CTX.journal_io && g_jsb_seq == IN.tseq, "... on the journal's channel, with s_sequence == the id the recovery restarted the log at");
+		CHECK(g_jsb_ch == (void *)jio && g_jsb_seq == IN.tseq, "... on the journal's channel, with s_sequence == the id the recovery restarted the log at");
 		REACH("replayed and released");
 	}
 	if (recovered && IN.recover_ret != 0) {
 		CHECK(r != 0, "a failed replay is reported");
 		REACH("replay failed");
-		if (g_jsb_empty_writes && g_empty_while_unflushed) REACH("FINDING: journal marked empty although replayed blocks are not durable");
 	}
-	if (IN.options & E2F_OPT_READONLY)
-		CHECK(g_jsb_writes == 0, "read-only: the journal superblock is not written");
+#ifndef C04_OBSERVE_ONLY
+	CHECK(g_jsb_empty_writes == 0 || (g_recover_calls == 1 && g_recover_ret == 0),
+	      "C04: the journal is marked empty only after a replay that reported success");
+#endif
+	REACH("end");
+}
+
+/* ================= e2fsck_run_ext3_journal: needs_recovery is cleared only after the replay returned and the filesystem
+ * was re-opened; a failed replay costs the filesystem its VALID flag (=> full check) ================= */
+static struct struct_ext2_filsys FS2;
+static struct ext2_super_block SB2;
+int g_run_recover_calls, g_run_opens, g_run_checks, g_run_frees, g_run_order_ok;
+long g_run_recover_ret, g_run_check_ret;
+
+static errcode_t recover_ext3_journal(e2fsck_t ctx)
+	REQUIRES(g_run_recover_calls == 0 && g_run_opens == 0 && ctx->fs == &FS)
+	REQUIRES((ctx->fs->super->s_feature_incompat & EXT3_FEATURE_INCOMPAT_RECOVER) != 0)	/* still requesting recovery */
+	ASSIGNS(g_run_recover_calls)
+	ENSURES(g_run_recover_calls == 1 && RET == g_run_recover_ret);
+
+errcode_t e2fsck_check_ext3_journal(e2fsck_t ctx)
+	REQUIRES(g_run_recover_calls == 1 && g_run_opens == 1 && ctx->fs == &FS2)
+	REQUIRES((ctx->fs->super->s_feature_incompat & EXT3_FEATURE_INCOMPAT_RECOVER) == 0)
+	ASSIGNS(g_run_checks)
+	ENSURES(g_run_checks == OLD(g_run_checks) + 1 && RET == g_run_check_ret);
+
+errcode_t ext2fs_flush(ext2_filsys fs) { return 0; }
+errcode_t ext2fs_mmp_stop(ext2_filsys fs) { return 0; }
+void ext2fs_free(ext2_filsys fs)
+{
+	CHECK(g_run_recover_calls == 1 && fs == &FS, "the old filesystem handle is dropped only after the replay returned");
+	g_run_frees++;
+}
+errcode_t ext2fs_open(const char *name, int flags, int superblock, unsigned int block_size, io_manager manager, ext2_filsys *ret_fs)
+{
+	CHECK(g_run_recover_calls == 1 && g_run_frees == 1, "re-open comes after the replay and after the old handle was dropped");
+	g_run_opens++;
+	if (IN.rc_get)
+		return IN.rc_get;
+	*ret_fs = &FS2;
+	return 0;
+}
+
+void h_run(void)
+{
+	build_ctx();
+	ASSUME(!(IN.options & E2F_OPT_READONLY));
+	ASSUME(IN.rc_load >= 0 && IN.rc_load < 0x7fffffffL && IN.close_ret >= 0 && IN.close_ret < 0x7fffffffL);	/* errcode_t values */
+	g_run_recover_calls = g_run_opens = g_run_checks = g_run_frees = 0;
+	g_run_recover_ret = IN.rc_load;
+	g_run_check_ret = IN.close_ret;
+	MGR.get_stats = 0;
+	memset(&SB, 0, sizeof(SB));
+	SB.s_feature_incompat = IN.incompat | EXT3_FEATURE_INCOMPAT_RECOVER;	/* the caller's reason to run the journal */
+	SB.s_state = (__u16)IN.tseq;
+	FS.flags = IN.fs_flags & ~EXT2_FLAG_DIRTY;
+	CTX.filesystem_name = "dev";
+	CTX.program_name = "e2fsck";
+	/* what ext2fs_open finds on disk afterwards: an arbitrary superblock (normally still flagged needs_recovery) */
+	FS2.io = &FSCH; FS2.super = &SB2; FS2.blocksize = BS; FS2.flags = IN.fs_flags;
+	memset(&SB2, 0, sizeof(SB2));
+	SB2.s_feature_incompat = IN.failed_commit;
+	SB2.s_state = (__u16)IN.tail_sequence;
+	unsigned int old_incompat = SB.s_feature_incompat;
+
+	errcode_t r = e2fsck_run_ext3_journal(&CTX);
+
+	CHECK(g_run_recover_calls == 1 && g_run_opens == 1 && g_run_checks == 1, "replay once, re-open once, final journal check once");
+	CHECK(SB.s_feature_incompat == old_incompat, "the superblock image the replay ran under is never edited (needs_recovery stays set in it)");
+	CHECK(CTX.fs == &FS2, "the context continues on the re-opened filesystem");
+	CHECK(!(SB2.s_feature_incompat & EXT3_FEATURE_INCOMPAT_RECOVER), "needs_recovery is cleared in the re-opened superblock");
+	CHECK((FS2.flags & EXT2_FLAG_DIRTY) && (FS2.flags & EXT2_FLAG_MASTER_SB_ONLY), "... which is marked dirty (primary superblock only)");
+	if (IN.rc_load != 0) {
+		CHECK(!(SB2.s_state & EXT2_VALID_FS), "a failed replay takes EXT2_VALID_FS away: a full check is forced");
+		CHECK(r != 0, "and the error is reported");
+		REACH("replay failed");
+	} else {
+		CHECK((SB2.s_state & EXT2_VALID_FS) == ((__u16)IN.tail_sequence & EXT2_VALID_FS), "a successful replay leaves EXT2_VALID_FS as found on disk");
+		CHECK(r == IN.close_ret, "result: that of the final journal check");
+		REACH("replay ok");
+	}
 	REACH("end");
 }
